@@ -158,3 +158,7 @@ mod test {
         assert_eq!(ont.hpo_version(), "2022-10-05");
     }
 }
+
+#[cfg(kani)]
+#[path = "/verif/kani/hp_obo.rs"]
+mod verif_kani;
